@@ -72,6 +72,8 @@ def coq_ty(t):
         return "(ext num)"
     if t == NAT:
         return "nat"
+    if isinstance(t, tuple) and t[0] == "funN":
+        return "(" + " -> ".join(coq_ty(x) for x in t[1]) + " -> " + coq_ty(t[2]) + ")"
     if isinstance(t, tuple):
         if t[0] == "opt":
             return f"(option {coq_ty(t[1])})"
@@ -609,6 +611,13 @@ class Translator:
                     args = self.bind_args(f, n, env, self_text=obj)
                     return f"({f.coq} " + " ".join(args) + ")", f.ret
                 fail(n, f"method {fn.attr} on {oty}")
+        # ---- a function-valued parameter
+        if isinstance(fn, ast.Name) and fn.id in env and isinstance(env[fn.id], tuple) and env[fn.id][0] == "funN":
+            _, argts, rett = env[fn.id]
+            if n.keywords or len(n.args) != len(argts):
+                fail(n, "call of a function parameter")
+            args = [coerce(*self.ex(a, env), t) for a, t in zip(n.args, argts)]
+            return f"({self.var(fn.id)} " + " ".join(args) + ")", rett
         # ---- plain functions
         f = self.lookup_func(name)
         if f is not None:
@@ -907,6 +916,8 @@ def translate(src_path, spec, instance, name=None):
             f"From TT Require Import lib.Prelude{instance}.\n")
     for imp in spec.get("uses", ()):
         head += f"From TT Require Import gen{instance}.{imp}.\n"
+    for imp in spec.get("extra_imports", ()):
+        head += f"From TT Require Import {imp}.\n"
     head += "Local Open Scope num_scope.\nLocal Open Scope bool_scope.\n\n"
     if spec.get("section"):
         head += "Section Gen.\n" + spec["section"] + "\n\n"
